@@ -24,6 +24,11 @@
 (*              a damaged, truncated or missing prefix, and the empty blob; *)
 (*              entry points: hdr (decodePostings, dispatch on the prefix), *)
 (*              cached (decodeCachedPostings), dvs, dss (own decoders)      *)
+(*   sub        the list ("all"), the list without its first value         *)
+(*              ("first") and without its last value ("last"), as runs     *)
+(*   pooled[k]  after a decode + close of the whole list: codec, which of  *)
+(*              the three lists was decoded (pooling on) while the others  *)
+(*              were open too, what its interleaved Next calls returned    *)
 (* Judged with the property-level operators of PostingsCodec only.         *)
 (***************************************************************************)
 EXTENDS TraceLib, PostingsCodec
@@ -66,7 +71,12 @@ JudgeCross(e) ==
         \cup (IF \A g \in DOMAIN e.cross : ok(g) => e.cross[g].decoded = e.list THEN {} ELSE {"no-decoder-misreads-an-encoding"})
         \cup (IF (MustDecode \cap tried) \subseteq read THEN {} ELSE {"matching-decoder-reads-its-encoding"})
 
-JudgeLine(e) == UNION { JudgeGroup(e, e.res[g]) : g \in DOMAIN e.res } \cup JudgeCross(e)
+(* "decodes to the same list": also when other decoded lists are alive at the same time *)
+JudgePooled(e) ==
+    IF \A k \in DOMAIN e.pooled : e.pooled[k].err = "" /\ e.pooled[k].decoded = e.sub[e.pooled[k].which]
+      THEN {} ELSE {"every-open-decoded-list-yields-its-own-values"}
+
+JudgeLine(e) == UNION { JudgeGroup(e, e.res[g]) : g \in DOMAIN e.res } \cup JudgeCross(e) \cup JudgePooled(e)
 
 (* Model conformance (never a verdict): the algorithm-level decoder predicts every <<ret, at>>  *)
 (* (chunking is invisible - PostingsCodecMC - so the one-buffer decoder is used; short lists).  *)
